@@ -16,6 +16,7 @@ EXPLANATION = (
     'returning edge, and push/pop are paired; (4) the alias-chain loop leaves on a membership test, grows the chain on every '
     'iteration and produces E019 on that edge; (5) the inheritance search only expands bases not yet visited. It decides these '
     'clauses on all paths, not the exactness of the reported cycles for particular graphs.')
+THOROUGH_RERUN = ['release']     # the same rules over the release build (no debug assertions): verified clean on the pinned tree
 ASSUMPTIONS = ['rustc type checking and MIR construction', 'HashSet::insert / Vec::contains behave as documented']
 
 V = 'slicec::validators::'
